@@ -11,6 +11,7 @@ import (
 	"encoding/json"
 	"fmt"
 	"math/rand"
+	"os"
 	"sort"
 	"strings"
 	"sync"
@@ -47,13 +48,23 @@ var fabricSeq int64
 // newFabric starts nb brokers of one license and matcher mode. Storage and license are shared settings; every broker
 // has its own state directory and node name.
 func newFabric(nb int, mode string, licVer int, storage string, surveyed bool) (*fabric, error) {
+	return newFabricDir(nb, mode, licVer, storage, surveyed, "")
+}
+
+// newFabricDir: dir != "" gives broker i the state directory dir/b<i>, kept when the fabric is closed (restarts).
+func newFabricDir(nb int, mode string, licVer int, storage string, surveyed bool, dir string) (*fabric, error) {
 	f := &fabric{bs: map[string]*bk.Broker{}, nodes: map[string]*meshsender.Node{}, peers: map[string]mesh.PeerName{},
 		byPeer: map[string]string{}, net: meshsender.NewNet(), words: map[uint32]string{}, survey: surveyed}
 	base := atomic.AddInt64(&fabricSeq, 1)
 	for i := 1; i <= nb; i++ {
 		n := fmt.Sprintf("b%d", i)
-		b, err := bk.New(bk.Opts{Mode: mode, LicenseVer: licVer, Storage: storage,
-			NodeName: fmt.Sprintf("00:00:00:%02x:%02x:%02x", (base>>8)&0xff, base&0xff, i)})
+		o := bk.Opts{Mode: mode, LicenseVer: licVer, Storage: storage,
+			NodeName: fmt.Sprintf("00:00:00:%02x:%02x:%02x", (base>>8)&0xff, base&0xff, i)}
+		if dir != "" {
+			o.Dir, o.KeepDir = fmt.Sprintf("%s/b%d", dir, i), true
+			os.MkdirAll(o.Dir, 0o755)
+		}
+		b, err := bk.New(o)
 		if err != nil {
 			f.close()
 			return nil, err
